@@ -293,3 +293,84 @@ func VerifC18_Category() {
 }
 
 var _ = uuids.UUID("")
+
+// VerifC18_LanguageChanges: the language in force is the contact's language
+// at the moment a text is chosen. One node sends a message, changes the
+// contact's language (set_contact_language, to any of the three languages or
+// to none) and sends a second message, then its router saves a result with a
+// localized category: the first message follows the fallback for the old
+// language, the second message, its locale and the localized category the
+// fallback for the new one.
+// cover: language-changed, second-text-translated, first-text-translated, category-translated
+func VerifC18_LanguageChanges() {
+	var oldLang, newLang i18n.Language
+	if zzverif.Choice("contact-has-language", 2) == 1 {
+		oldLang = verifLang("contact-language", 3)
+	}
+	if k := zzverif.Choice("new-language", 4); k > 0 {
+		newLang = verifLangs[k-1]
+	}
+	allowed := verifAllowed("allowed-languages")
+	base := verifLang("base-language", 3)
+	loc := definition.NewLocalization()
+	tr1, tr2, trName := map[i18n.Language][]string{}, map[i18n.Language][]string{}, map[i18n.Language][]string{}
+	for _, l := range verifLangs[:verifNumTranslated()] {
+		if t, ok := verifTranslation("first-text-translation", l, "first", 2); ok {
+			tr1[l] = t
+			loc.SetItemTranslation(l, "a1", "text", t)
+		}
+		if t, ok := verifTranslation("second-text-translation", l, "second", 2); ok {
+			tr2[l] = t
+			loc.SetItemTranslation(l, "a3", "text", t)
+		}
+		if t, ok := verifTranslation("name-translation", l, "name", 2); ok {
+			trName[l] = t
+			loc.SetItemTranslation(l, "cd", "name", t)
+		}
+	}
+	cats := []flows.Category{routers.NewCategory("cd", "Other", "e0")}
+	router := routers.NewSwitch(nil, "Color", cats, "x", nil, "cd")
+	node := definition.NewNode("f0n0", []flows.Action{
+		actions.NewSendMsg("a1", "first base", nil, nil, false),
+		actions.NewSetContactLanguage("a2", string(newLang)),
+		actions.NewSendMsg("a3", "second base", nil, nil, false),
+	}, router, []flows.Exit{definition.NewExit("e0", "")})
+	f, err := definition.NewFlow(verifFlowUUID(0), "F0", base, flows.FlowTypeMessaging, 1, 10, loc, []flows.Node{node}, nil, nil)
+	zzverif.Assert(err == nil, "flow did not validate")
+	sa := verifNewAssets()
+	sa.add(f)
+	env := envs.NewBuilder().WithAllowedLanguages(allowed...).Build()
+	contact := flows.NewEmptyContact(sa, "Bob", oldLang, nil)
+	trig := triggers.NewBuilder(env, assets.NewFlowReference(verifFlowUUID(0), "F0"), contact).Manual().Build()
+	sess, sp, err := verifEngine(10, 10).NewSession(sa, trig)
+	zzverif.Assert(err == nil, "NewSession failed")
+	zzverif.Assert(sess.Contact().Language() == newLang, "set_contact_language did not set the language")
+	if oldLang != newLang {
+		zzverif.Cover("language-changed")
+	}
+
+	want1, lang1 := verifRefPick(verifRefChain(oldLang, allowed, base), base, tr1, []string{"first base"})
+	chain2 := verifRefChain(newLang, allowed, base)
+	want2, lang2 := verifRefPick(chain2, base, tr2, []string{"second base"})
+	wantName, nameLang := verifRefPick(chain2, base, trName, []string{""})
+	if lang1 != base {
+		zzverif.Cover("first-text-translated")
+	}
+	if lang2 != base {
+		zzverif.Cover("second-text-translated")
+	}
+	if nameLang != base {
+		zzverif.Cover("category-translated")
+	}
+	var msgs []*flows.MsgOut
+	for _, e := range sp.Events() {
+		if mc, ok := e.(*events.MsgCreatedEvent); ok {
+			msgs = append(msgs, mc.Msg)
+		}
+	}
+	zzverif.Assert(len(msgs) == 2, "two messages expected")
+	zzverif.Assert(msgs[0].Text() == want1[0] && string(msgs[0].Locale()) == string(lang1), "the message sent before the language change was not chosen by the fallback for the old language")
+	zzverif.Assert(msgs[1].Text() == want2[0] && string(msgs[1].Locale()) == string(lang2), "the message sent after the language change was not chosen by the fallback for the new language")
+	res := sess.Runs()[0].Results().Get("color")
+	zzverif.Assert(res != nil && res.CategoryLocalized == wantName[0], "the category localized after the language change was not chosen by the fallback for the new language")
+}
